@@ -99,7 +99,19 @@ func (t *PatternType) IsAssignable(o px.Type, g px.Guard) bool {
 			return true
 		}
 		// every regexp of the other pattern must be one of ours
-		return len(ot.regexps) > 0 && px.IncludesAll(ot.regexps, t.regexps, g)
+		for _, orx := range ot.regexps {
+			found := false
+			for _, rx := range t.regexps {
+				if rx.Equals(orx, g) {
+					found = true
+					break
+				}
+			}
+			if !found {
+				return false
+			}
+		}
+		return len(ot.regexps) > 0
 	}
 
 	if _, ok := o.(*stringType); ok {
